@@ -8,7 +8,7 @@ import re
 from .. import core, outparse, probes
 
 ID = 'C14'
-RULE = ('metamorphic pairs on the real code: every built-in markup snippet of html / xsl / pug x 7 syntaxes x suffix forms (none, .c[x=1], {t}, *2, /, >b, '
+RULE = ('metamorphic pairs on the real code: every built-in markup snippet of html / xsl / pug x 7 syntaxes x suffix forms (none, .c[x=1], {t}, *2, /, >b, >itself, '
         'inside a larger abbreviation), definition spliced as text (/ kept last; attribute/text/repeat/close suffixes on single-top-level definitions, >b on '
         'definitions whose deepest node is an element); user snippets with several top-level nodes for the "applied to the top-level elements" clause; '
         'termination + depth on random user tables of 1-6 snippets over 4 names with self and mutual references. Non-trivial = the alias differs from its '
@@ -73,6 +73,9 @@ def pairs_for(key, defn):
         last = re.split(r'[>+^(]', bare(defn))[-1]
         if last.strip() and not re.fullmatch(r'\s*', last):
             yield ('child', key + '>x-b', defn + '>x-b')
+            # the alias again among its own children: resolved after the outer alias left the cycle guard
+            yield ('child-self', key + '>' + key, defn + '>' + defn)
+            yield ('child-self-deep', key + '>x-m>' + key + '+x-n', defn + '>x-m>(' + defn + ')+x-n')
 
 
 def loose_stream(out):
